@@ -655,6 +655,8 @@ func alsoUnder(prop string, sc *scenario) {
 func registerAll() {
 	alsoUnder("C12", scHandshake)
 	alsoUnder("C12", scWS)
+	alsoUnder("C15", scWS)
+	alsoUnder("C15", scHandshake)
 	register(scHandshake)
 	register(scMessage)
 	register(scWS)
